@@ -13,7 +13,7 @@ def gen_case(rng, i):
     vs = gen.VARS6[6 - nv:]
     inv, outv = vs[: max(1, nv // 2)], vs[max(1, nv // 2):]
     shape = ["bounded", "bounded", "halfopen", "random", "infeasible", "free_var", "empty", "disconnected_infeasible",
-             "presolve_trap", "vacuous_row"][i % 10]
+             "presolve_trap", "vacuous_row", "near_equal_bounds", "print_twin"][i % 12]
     if shape == "presolve_trap":
         nv = 3
         vs = gen.VARS6[3:]
@@ -25,6 +25,9 @@ def gen_case(rng, i):
     elif shape == "halfopen":
         a = [({v: 1}, rng.randint(0, 4)) for v in inv]
         g, _ = feasible_list(rng, vs, rng.randint(1, 3))
+    elif shape == "print_twin":
+        a = gen.bounded_list_raw(rng, inv)
+        g = gen.bounded_list_raw(rng, outv) + gen.rlist_raw(rng, vs, 0, 1)
     elif shape == "random":
         a, _ = feasible_list(rng, inv, rng.randint(0, 2))
         g, _ = feasible_list(rng, vs, rng.randint(1, 3))
@@ -50,6 +53,15 @@ def gen_case(rng, i):
             inv, outv = [x], rng.sample([y, z], 2)
         k = rng.randint(1, 3)
         trap = {y: k * s1 * sg, z: k * s2 * sg}
+    elif shape == "near_equal_bounds":
+        # the assumptions bound a variable by B + d, the guarantees by B, with d/B <= 1e-5: different constraints, and the tighter
+        # one decides the optimum
+        B = rng.choice([100000, 200000, 500000])
+        d = B // 100000
+        v, sg = inv[0], rng.choice([1, -1])
+        a = [({v: sg}, B + d)] + ([({v: -sg}, 5)] if rng.random() < 0.5 else [])
+        g = [({v: sg}, B)] + (gen.bounded_list_raw(rng, outv) if outv else [])
+        near = ({v: sg}, True, "contract")
     elif shape == "vacuous_row":
         # ordinary rows together with a row that has no variable (what  x + 1 <= x  leaves): a contradiction when its constant is negative
         a = gen.bounded_list_raw(rng, inv)
@@ -70,10 +82,22 @@ def gen_case(rng, i):
     objs.append(({rng.choice(vs): 1}, True, "bounds"))
     objs.append(({rng.choice(vs): 1}, False, "bounds"))
     objs.append(({rng.choice(inv): rng.choice([-1, 1])}, rng.random() < 0.5, "list"))
+    if shape == "near_equal_bounds":
+        objs = [near, ({near[0].copy().popitem()[0]: 1}, near[0][inv[0]] > 0, "bounds"), (near[0], True, "list")] + objs[:2]
     if shape == "presolve_trap":
         objs = [(trap, True, "contract"), ({v: -c for v, c in trap.items()}, False, "contract"), (trap, True, "list"),
                 (trap, False, "contract"), ({v: -c for v, c in trap.items()}, True, "list")] + objs[:2]
-    return {"c": {"inv": inv, "outv": outv, "a": a, "g": g}, "objs": objs, "shape": shape}
+    case = {"c": {"inv": inv, "outv": outv, "a": a, "g": g}, "objs": objs, "shape": shape}
+    if shape == "print_twin":
+        # a second contract that PRINTS like the first (one bound larger by 2^-11): the same questions, asked in the same process
+        cand = [(part, k) for part in ("a", "g") for k, (co, cst) in enumerate(case["c"][part]) if co and 1 <= abs(cst) <= 9 and float(cst).is_integer()]
+        if cand:
+            part, k = rng.choice(cand)
+            tw = {key: (list(val) if isinstance(val, list) else val) for key, val in case["c"].items()}
+            tw[part] = list(tw[part])
+            tw[part][k] = (dict(tw[part][k][0]), tw[part][k][1] + 2.0**-11)
+            case["twin"] = tw
+    return case
 
 
 def gen_cases(tier):
@@ -93,6 +117,9 @@ def run_case(case):
         if case.get("only_event") and case["only_event"] != j:
             continue
         evs.append(lpev.ev_optimize(case["c"], obj, mx, via))
+    if case.get("twin") and not case.get("only_event"):
+        for obj, mx, via in case["objs"]:
+            evs.append(lpev.ev_optimize(case["twin"], obj, mx, via))
     return {"id": case["id"], "ev": evs}
 
 
@@ -100,7 +127,7 @@ def main(tier, replay=None):
     return lpev.run(
         PROP, tier, gen_cases(tier), run_case,
         "contracts (bounded boxes, half-open, random feasible, planted contradiction, a declared variable no constraint mentions, no "
-        "constraint at all, a contradiction disconnected from the objective, shapes on which the solver's presolve misreports an unbounded problem, rows without variables among ordinary rows) x objectives with <= 3 small integer coefficients, both "
+        "constraint at all, a contradiction disconnected from the objective, shapes on which the solver's presolve misreports an unbounded problem, rows without variables among ordinary rows, bounds of 10^5 that differ by 10^-5 of themselves between assumptions and guarantees, a second contract that prints like the first) x objectives with <= 3 small integer coefficients, both "
         "directions, through PolyhedralIoContract.optimize, get_variable_bounds and TermList.optimize; TLC checks an optimality "
         "certificate (feasible primal point, exact box-free dual), an unboundedness certificate (point + recession ray) or a Farkas "
         "infeasibility certificate and compares the recorded answer; non-trivial = certified class and answer agree",
